@@ -124,3 +124,68 @@ Example C04_termination_example :
                   (mkmach (init_cfg HData None false) [] [] 0%N) []) = [SSuspend; SSuspend].
 Proof. exact term_ex. Qed.
 Print Assumptions C04_termination_example.
+
+(* ------------------------------------------------------------------------------------------------------------
+   The html tokenizer interpreter is TOTAL: it terminates (above) and never reaches a panic site (TokIR/NoPanic.v,
+   Inst/InstNoPanic.v).  Reference semantics (exact_errors = true, flat queue), every input, chunking, injected text and
+   sink script whose raw-text switches name states the table has real arms for (html_sink_ok), from a fresh tokenizer
+   in such a state (html_kind_ok; every state of the Rust enum is: C04_html_listed_states_are_well_kinded), with fuel
+   above the bound.  The log of the driver is  answer-of-end() :: feed entries:
+     - every feed entry is done / script pause / encoding indicator, or SPanic 96 - the DRIVER MODEL's limit of 50
+       pauses per chunk, not a tokenizer site;
+     - end() answers done, or SPanic 4: the assert!(matches!(run, Done)) of Tokenizer::end, which in the model needs a
+       tag completed from put-back character-reference input with a pausing answer; excluded outright for sinks that
+       never answer Script / EncodingIndicator (second theorem).
+   So no entry is SPanic 99 (fall-through), 1 (process_char_ref), 3 / 5 (EOF-loop unreachable!, input left after the
+   final run), 98 / 97 (fuel). *)
+From HV Require Import TokIR.NoPanic Inst.InstNoPanic.
+
+Theorem C04_html_tokenizer_total :
+  forall simd ent c1 sk, html_sink_ok sk = true ->
+  forall fuel inj chunks s0 last, html_kind_ok s0 = true ->
+  (html_fuel (length (concat chunks) + length chunks * (50 * length inj)) <= fuel)%nat -> (4 <= fuel)%nat ->
+  exists r rest,
+    snd (drive_flat html_flavour true html_table simd ent c1 sk fuel inj chunks
+                    (mkmach (init_cfg s0 last false) [] [] 0%N) []) = r :: rest /\
+    (r = SSuspend \/ r = SPanic 4) /\
+    Forall (fun x => (x = SSuspend \/ x = SScript \/ x = SEncoding) \/ x = SPanic 96) rest.
+Proof. exact html_tokenizer_total. Qed.
+Print Assumptions C04_html_tokenizer_total.
+
+Theorem C04_html_tokenizer_total_no_pauses :
+  forall simd ent c1 sk, html_sink_ok sk = true ->
+  forall fuel inj chunks s0 last, html_sink_never_pauses sk = true -> html_kind_ok s0 = true ->
+  (html_fuel (length (concat chunks)) <= fuel)%nat -> (4 <= fuel)%nat ->
+  Forall (eq SSuspend) (snd (drive_flat html_flavour true html_table simd ent c1 sk fuel inj chunks
+                                        (mkmach (init_cfg s0 last false) [] [] 0%N) [])).
+Proof. exact html_tokenizer_total_quiet. Qed.
+Print Assumptions C04_html_tokenizer_total_no_pauses.
+
+(* from any machine satisfying the two invariants (kept by feed, pushed chunks and injected text) *)
+Theorem C04_html_tokenizer_total_from_any_machine :
+  forall simd ent c1 sk, html_sink_ok sk = true ->
+  forall fuel inj chunks m, HtmlTI m -> HtmlK m ->
+  (html_fuel (html_unread m + length (concat chunks) + length chunks * (50 * length inj)) <= fuel)%nat -> (4 <= fuel)%nat ->
+  log_ok (snd (drive_flat html_flavour true html_table simd ent c1 sk fuel inj chunks m [])).
+Proof. exact html_total_from. Qed.
+Print Assumptions C04_html_tokenizer_total_from_any_machine.
+
+(* the decidable conditions on the regenerated table *)
+Theorem C04_html_states_closed_and_charref_safe : forall s, state_ok html_flavour html_table s = true.
+Proof. exact html_state_ok_all. Qed.
+Print Assumptions C04_html_states_closed_and_charref_safe.
+Theorem C04_html_step_arms_never_answer_eof : forall s, noeofb (t_step html_table s) = true.
+Proof. exact html_noeof_all. Qed.
+Print Assumptions C04_html_step_arms_never_answer_eof.
+Theorem C04_html_listed_states_are_well_kinded : forallb html_kind_ok html_states = true.
+Proof. exact html_kind_ok_listed. Qed.
+Print Assumptions C04_html_listed_states_are_well_kinded.
+
+(* non-vacuity (a test, by computation): a sink with a raw-text switch on <s> and a script pause on </a>, two chunks *)
+Example C04_total_example :
+  html_sink_ok np_sk = true /\ html_kind_ok HData = true /\
+  snd (drive_flat html_flavour true html_table (simd_first_guard, simd_tail_stop, simd_tail_newline)
+                  (fun _ => None) (fun _ => None) np_sk (html_fuel 20) [] np_input
+                  (mkmach (init_cfg HData None false) [] [] 0%N) []) = [SSuspend; SSuspend; SScript; SSuspend].
+Proof. exact np_ex. Qed.
+Print Assumptions C04_total_example.
